@@ -66,7 +66,8 @@ def check(run, prog, tier):
     consume = [(b, i, n) for b, i, n in guc.nodes() if n.get("k") == "Asg" and n.get("op") == "&=" and mentions(n["R"], "HAS_CMD_TURN")]
     run.need(consume, "turn consumption in get_user_command")
     cb, ci, cn = consume[0]
-    g = [(c, t) for c, t, B in cfgq.guards(guc, cb.id)]
+    # guards with leading negations folded: `!user_command` false is `user_command` true
+    g = [normalize_cond(c, t) for c, t, B in cfgq.guards(guc, cb.id)]
     has_cmd = any(t and strip(c).get("k") == "Ref" and strip(c).get("n") == "user_command" for c, t in g)
     has_turn = any(t and mentions(c, "HAS_CMD_TURN") for c, t in g)
     in_buf = any(t and mentions(c, "CMD_IN_BUF") for c, t in g)
@@ -80,7 +81,8 @@ def check(run, prog, tier):
     whys = "no turn test"
     if tblocks:
         T = tblocks[0]
-        s_false = guc.blocks[T].succ[1]
+        # the edge on which the turn bit is clear (whichever way round the test is written)
+        s_false = guc.blocks[T].succ[1] if normalize_cond(guc.branch_cond(T), True)[1] else guc.blocks[T].succ[0]
         # blocks reachable from the false edge before coming back to the loop head (the for-condition block)
         heads = [bid for bid in guc.reachable() if any(p in guc.reachable() and guc.dominates(bid, p) for p in guc.blocks[bid].preds)]
         region = cfgq.reach_set(guc, [s_false], avoid_blocks=heads)
@@ -177,8 +179,29 @@ def check(run, prog, tier):
     # back nothing to execute, and the slot the cursor stands on is empty: where the cursor stays does not matter
     from stale import implied_atoms as _ia
 
+    def gone_guard(f2, c, t):
+        for a, tr in _ia(c, t):
+            op, l, r = atom_of(a, tr)
+            if op == "!=" and r is not None and (any(x.get("k") == "Mem" and x.get("f") == "interactive" for x in walk(l)) or any(x.get("k") == "Mem" and x.get("f") == "interactive" for x in walk(r))):
+                return True
+        e0, t0 = normalize_cond(c, t)
+        return (not t0) and (facts.any_in_macro(e0, "IP_VALID") or facts.any_in_macro(c, "IP_VALID"))
+    # file-local predicates that answer 0 exactly when the user's connection is gone
+    gone_preds = set()
+    for h in prog.unit("src/comm.c").funcs.values():
+        h = getattr(h, "plain", h)
+        if not h.static or h.rt != "int":
+            continue
+        rets = [(b2, e) for b2, i2, e in h.elements() if e.get("k") == "Return" and "e" in e]
+        zero = [b2 for b2, e in rets if const_val(e["e"]) == 0]
+        if zero and all(const_val(e["e"]) is not None for b2, e in rets) and all(any(gone_guard(h, c, t) for c, t, B in cfgq.guards(h, b2.id)) for b2 in zero):
+            gone_preds.add(h.name)
+
     def user_gone(bid):
         for c, t, B in cfgq.guards(guc, bid):
+            e1, t1 = normalize_cond(c, t)
+            if (not t1) and strip(e1).get("k") == "Call" and strip(e1).get("fn") in gone_preds:
+                return True
             disj = []
             # !(a && b) does not decompose; look for the disjunct form too: ob->interactive != ip || ...
             for a, tr in _ia(c, t):
